@@ -244,6 +244,11 @@ func H_WmptTrie() {
 	np := vp.Choose("npairs", vp.Param("maxpairs", 3)+1)
 	pt := &wmpt.PersistTrie{}
 	for i := 0; i < np; i++ {
+		// an element of the array may be a CBOR null: it decodes to a nil *PersistTriePair
+		if vp.Choose("p"+string(rune('0'+i))+".null", 2) == 1 {
+			pt.Pairs = append(pt.Pairs, nil)
+			continue
+		}
 		pt.Pairs = append(pt.Pairs, &wmpt.PersistTriePair{Value: marshalNode(genNodeSmall("p" + string(rune('0'+i))))})
 	}
 	data, err := cbor.Marshal(pt)
